@@ -1265,6 +1265,11 @@ pub fn c18(ctx: &Ctx) -> Report {
             }
         }
     }
+    // records sized so that EVERY data block is exactly 4096 (kind 3) / 2048 (kind 4) bytes on disk: every block starts at
+    // a multiple of 2 KiB right behind a block that fills its range(s) completely (filter-range boundary arithmetic)
+    grid.push((60, 4000, 10, 3));
+    grid.push((90, 2000, 10, 4));
+    grid.push((40, 4000, 16, 3));
     let grid = &grid;
     let measured = parallel(&ctx.driver, ctx.threads, ctx.seed ^ 0xC18, Report::new("C18", ""), |t, _d, rng, rep| {
         for (gi, (n, block_size, bits, kind)) in grid.iter().enumerate() {
@@ -1279,6 +1284,9 @@ pub fn c18(ctx: &Ctx) -> Report {
                         rng.any_bytes(l)
                     }
                     1 => format!("key{:08}", i * 3).into_bytes(),
+                    // 16 bytes, well spread (NOT consecutive numbers: keys that differ only in their last byte have identical
+                    // probe positions in a 64-bit filter under LevelDB's hash - a property of the format's hash function)
+                    3 | 4 => format!("{:016x}", (i as u64 + 1).wrapping_mul(0x9E37_79B9_7F4A_7C15)).into_bytes(),
                     _ => {
                         let mut k = b"common/prefix/shared/by/all/keys/".to_vec();
                         k.extend(rng.any_bytes(6));
@@ -1286,6 +1294,11 @@ pub fn c18(ctx: &Ctx) -> Report {
                     }
                 })
                 .collect();
+            let val: Vec<u8> = match kind {
+                3 => vec![b'p'; 4063],
+                4 => vec![b'p'; 2015],
+                _ => b"v".to_vec(),
+            };
             keys.sort();
             keys.dedup();
             let cfg = WCfg { cmp: CmpKind::Bytewise, block_size, restart: 16, snappy: false, pol: PolKind::Bloom(bits) };
@@ -1293,7 +1306,7 @@ pub fn c18(ctx: &Ctx) -> Report {
             {
                 let mut b = sstable::TableBuilder::new(cfg.options(), &mut img);
                 for k in keys.iter() {
-                    b.add(k, b"v").unwrap();
+                    b.add(k, &val).unwrap();
                 }
                 b.finish().unwrap();
             }
@@ -1311,6 +1324,7 @@ pub fn c18(ctx: &Ctx) -> Report {
                 let probe: Vec<u8> = match kind {
                     0 => rng.any_bytes(17),
                     1 => format!("key{:08}", (j * 7 + 1) % (n * 3 + 100) / 3 * 3 + 1).into_bytes(),
+                    3 | 4 => format!("{:016x}", (j as u64 + 1_000_003).wrapping_mul(0x9E37_79B9_7F4A_7C15)).into_bytes(),
                     _ => {
                         let mut k = b"common/prefix/shared/by/all/keys/".to_vec();
                         k.extend(rng.any_bytes(7));
@@ -1329,7 +1343,7 @@ pub fn c18(ctx: &Ctx) -> Report {
                 }
             }
             let rate = touched as f64 / lookups as f64;
-            let label = format!("keys={} n={} block_size={} bits_per_key={} rate={:.4}", ["random", "sequential", "shared-prefix"][kind], keys.len(), block_size, bits, rate);
+            let label = format!("keys={} n={} block_size={} bits_per_key={} rate={:.4}", ["random", "sequential", "shared-prefix", "page-sized-records-4096", "page-sized-records-2048"][kind], keys.len(), block_size, bits, rate);
             rep.case(&label, true);
             rep.count_n("absent_key_lookups", lookups as u64);
             rep.count_n("lookups_touching_a_data_block", touched as u64);
